@@ -76,4 +76,19 @@ def pruneAxis (sizes : List Nat) (start stop : Nat) : List Nat × Nat × Nat × 
   let kept := keepUntil cs 0
   ((if kept.isEmpty then [0] else kept), off, st, sp)
 
+/-! Element level: what one element of the loaded arrays is, given which of the stored chunks
+    covering it are absent.  `lost*` come from the per-array lost maps (`lostSpec` / `lostByPieces`). -/
+
+/-- `DATA_LOST` (bit 3 of the flag byte) -/
+def dataLost : UInt8 := 8
+
+/-- a missing chunk of visibilities / weights / per-channel weights loads as zeros (`_default_zero`) -/
+def loadValue {α} (zero : α) (lost : Bool) (stored : α) : α := if lost then zero else stored
+
+/-- the flag byte: a missing flags chunk is a zero placeholder; `_apply_data_lost` then ORs `DATA_LOST`
+    into every element covered by a missing chunk of ANY of the arrays (the flags array included) -/
+def loadFlags (stored : UInt8) (lostVis lostWeights lostWeightsChannel lostFlags : Bool) : UInt8 :=
+  (if lostFlags then 0 else stored) |||
+    (if lostVis || lostWeights || lostWeightsChannel || lostFlags then dataLost else 0)
+
 end Chunks
